@@ -51,6 +51,13 @@ def scenarios(tier, seed=0):
     for irr in (["smt", "net80"] if q else irrs):
         c = A._b(crop="maize.2", irr=irr, iwc="WP", win={"pre": 3, "seasons": 4}, word="mix", soil="Clay")
         yield {"kind": "config", "config": c}
+    # short thermal-time crops under sustained heat (pollination fails on the record's temperatures; anything that alters the
+    # temperatures a later season sees shows against the run started at that season)
+    for word, irr, meth in itertools.product(["scorch", "hot", "coolnights"], ["smt", "none"] if not q else ["smt"], [2, 3]):
+        spec = A.to_spec(A._b(crop="maize.2", irr=irr, iwc="FC", word=word, win="w3", soil="SandyLoam"))
+        spec["crop"] = {"name": "MaizeGDD", "planting": "05/01", "harvest": "08/30", "scale": None, "gddscale": 0.15, "kw": {"GDDmethod": meth}}
+        spec["end"] = "2003/09/15"
+        yield {"kind": "spec", "spec": spec, "label": ["thermal-heat", word, irr, meth]}
     # thermal crop / full length (explicit harvest date so that both runs use the same latest-harvest day)
     full = [("MaizeGDD", "05/01", "10/30")] if q else [("MaizeGDD", "05/01", "10/30"), ("WheatGDD", "10/15", "07/30"), ("Wheat", "10/01", "06/30"), ("Maize", "05/01", "10/30")]
     for (name, planting, harvest), irr in itertools.product(full, ["smt", "int3"] if q else ["none", "smt", "int3", "net80"]):
